@@ -8,3 +8,16 @@ Definition gen_epi_abs_equiv_stmt : Prop := forall dummy t x, gen_epi_block dumm
 Definition gen_epi_pos_equiv_stmt : Prop := forall dummy t x, gen_epi_block dummy t (ANl KPos [x]) = epi_block dummy t (ANl KPos [x]).
 Definition gen_epi_exp_equiv_stmt : Prop := forall dummy t x, gen_epi_block dummy t (ANl KExp [x]) = epi_block dummy t (ANl KExp [x]).
 Definition gen_epi_relent_equiv_stmt : Prop := forall dummy t x y, gen_epi_block dummy t (ANl KRelEnt [x; y]) = epi_block dummy t (ANl KRelEnt [x; y]).
+(* Vector2Norm: any number of arguments (the loop over the arguments, with its inner loop over the terms of one argument) *)
+Definition gen_epi_norm2_equiv_stmt : Prop := forall dummy t args, gen_epi_block dummy t (ANl KNorm2 args) = epi_block dummy t (ANl KNorm2 args).
+(* every well-formed atom at once *)
+Definition atom_wf (a : atom) : bool :=
+  match a with
+  | ANl KNorm2 _ => true
+  | ANl KRelEnt [_; _] => true
+  | ANl KRelEnt _ => false
+  | ANl _ [_] => true
+  | ANl _ _ => false
+  | AVar _ => true
+  end.
+Definition gen_epi_block_equiv_stmt : Prop := forall dummy t a, atom_wf a = true -> gen_epi_block dummy t a = epi_block dummy t a.
